@@ -1,12 +1,15 @@
 import Cirbo.Proofs.Connect
 import Cirbo.Model.Miter
+import Cirbo.Proofs.MiterFull
 /-!
 # C13 — A miter is true exactly where the two circuits differ
 
 -- OBLIGATION: c13_comparison_stage
 -- OBLIGATION: c13_operands_keep_their_function
 -- OBLIGATION: c13_shape_error
--- PARTIAL: the end-to-end theorem (the miter's output equals the disjunction of the differences of the two operands' outputs on shared inputs) needs the composition theorem for the attached circuit's gates (C10, pending); build_miter is modelled as the code composes it (add_circuit + connect_circuit + generate_pairwise_xor + connect_circuit + final gate) and compared exactly with the code; its value is checked on all assignments of every generated pair incl. single-output, shared labels, repeated outputs. "Operands unmodified" is correspondence-only.
+-- OBLIGATION: c13_miter_correct
+-- OBLIGATION: c13_miter_true_iff_operands_differ
+-- PARTIAL: the end-to-end theorem is proved for well-formed operands and non-empty block names (the defaults are "circuit_left" / "circuit_right"), as partial correctness (whenever build_miter returns); that it does return on operands of equal shape and "operands unmodified" are decided by the correspondence (the model composes the miter exactly as the code does: add_circuit + connect_circuit + generate_pairwise_xor + connect_circuit + final gate).
 -/
 namespace Cirbo
 open GateType Circuit
@@ -41,8 +44,75 @@ theorem c13_shape_error (l r : Circuit) (ln rn : Label)
     rcases h with h | h <;> simp [h]
   simp [this]
 
+/-- **The miter, end to end.** For well-formed operands, whenever `build_miter` returns: the result has
+the left operand's inputs (renamed by `φ0`) in the left operand's order — hence as many inputs — and
+the single output `big_or`; every valuation of the miter restricts (through `φ0`, `φ1`) to a valuation
+of the left operand and a valuation of the right operand that receive the same input values position
+by position; and, with at least one output (a single output included), `big_or` is True exactly when
+the two output vectors differ. -/
+theorem c13_miter_correct {left right m : Circuit} {ln rn : Label} (hwl : WFG left) (hwr : WFG right)
+    (hli : ∀ i ∈ left.inputs, ∃ g ∈ left.gates, g.label = i ∧ g.ty = INPUT)
+    (hln : ln ≠ "") (hrn : rn ≠ "") (h : buildMiter left right ln rn = .ok m) :
+    ∃ φ0 φ1 : Label → Label,
+      m.inputs = left.inputs.map φ0 ∧ m.outputs = ["big_or"] ∧
+      ∀ b v, IsValB m b v →
+        IsValB left (v ∘ φ0) (v ∘ φ0) ∧ IsValB right (v ∘ φ1) (v ∘ φ1) ∧
+        right.inputs.map (v ∘ φ1) = left.inputs.map (v ∘ φ0) ∧
+        (1 ≤ left.outputs.length →
+          (v "big_or" = true ↔ left.outputs.map (v ∘ φ0) ≠ right.outputs.map (v ∘ φ1))) :=
+  miter_correct hwl hwr hli hln hrn h
+
+/-- the same against the operands' own denotations: for any valuations `vL`, `vR` of the operands that
+agree, position by position, with the values the miter's valuation gives its inputs, the miter's output
+is True exactly when `vL` and `vR` give different output vectors (so the miter is satisfiable exactly
+when the operands are not equivalent). Uses uniqueness of denotations (C01). -/
+theorem c13_miter_true_iff_operands_differ {left right m : Circuit} {ln rn : Label}
+    (hwl : WFU left) (hwr : WFU right) (hln : ln ≠ "") (hrn : rn ≠ "")
+    (h : buildMiter left right ln rn = .ok m) (hn : 1 ≤ left.outputs.length)
+    {b v : Label → Bool} (hv : IsValB m b v)
+    {bL vL bR vR : Label → Bool} (hL : IsValB left bL vL) (hR : IsValB right bR vR)
+    (hinL : left.inputs.map bL = m.inputs.map v) (hinR : right.inputs.map bR = m.inputs.map v) :
+    (v "big_or" = true ↔ left.outputs.map vL ≠ right.outputs.map vR) := by
+  have hli : ∀ i ∈ left.inputs, ∃ g ∈ left.gates, g.label = i ∧ g.ty = INPUT :=
+    fun i hi => (hwl.inputsOK i).mp hi
+  obtain ⟨φ0, φ1, him, _, hall⟩ := miter_correct hwl.toWFG hwr.toWFG hli hln hrn h
+  obtain ⟨h0, h1, hconn, hiff⟩ := hall b v hv
+  -- the restrictions are the operands' denotations under the same inputs
+  have eqOn : ∀ {c : Circuit} (hw : WFU c) {b1 v1 b2 v2 : Label → Bool}, IsValB c b1 v1 → IsValB c b2 v2 →
+      c.inputs.map b1 = c.inputs.map b2 → ∀ g ∈ c.gates, v1 g.label = v2 g.label := by
+    intro c hw b1 v1 b2 v2 hv1 hv2 hin
+    have hv2' : IsValB c b1 v2 := by
+      intro g hg
+      have := hv2 g hg
+      by_cases ht : g.ty = INPUT
+      · simp only [ht, if_true] at this ⊢
+        have hgi : g.label ∈ c.inputs := (hw.inputsOK g.label).mpr ⟨g, hg, rfl, ht⟩
+        have : b1 g.label = b2 g.label := by
+          obtain ⟨k, hk, hkk⟩ := List.getElem_of_mem hgi
+          have e1 := congrArg (fun l => l[k]?) hin
+          simp only [List.getElem?_map, List.getElem?_eq_getElem hk, Option.map_some, Option.some.injEq, hkk] at e1
+          exact e1
+        rw [this]; assumption
+      · simpa [ht] using this
+    intro g hg
+    exact valB_unique hw.toWF hv1 hv2' g hg
+  have mapOut : ∀ {c : Circuit} (hw : WFU c) {v1 v2 : Label → Bool},
+      (∀ g ∈ c.gates, v1 g.label = v2 g.label) → c.outputs.map v1 = c.outputs.map v2 := by
+    intro c hw v1 v2 he
+    apply List.map_congr_left
+    intro o ho
+    obtain ⟨g, hg, hgl⟩ : ∃ g ∈ c.gates, g.label = o := by simpa [Circuit.labels] using hw.outputsOK o ho
+    rw [← hgl]; exact he g hg
+  have inL : left.inputs.map (v ∘ φ0) = left.inputs.map bL := by
+    rw [hinL, him, List.map_map]
+  have inR : right.inputs.map (v ∘ φ1) = right.inputs.map bR := by
+    rw [hconn, hinR, him, List.map_map]
+  rw [hiff hn, mapOut hwl (eqOn hwl h0 hL inL), mapOut hwr (eqOn hwr h1 hR inR)]
+
 #print axioms c13_comparison_stage
 #print axioms c13_operands_keep_their_function
 #print axioms c13_shape_error
+#print axioms c13_miter_correct
+#print axioms c13_miter_true_iff_operands_differ
 
 end Cirbo
